@@ -155,6 +155,11 @@ func DrawFrameSpec(t *rapid.T, p FrameParams) FrameSpec {
 			f.Blocks = append(f.Blocks, b)
 			continue
 		}
+		// a compressed block must not be stored larger than the block maximum: leave room for the
+		// token / length-extension / offset bytes (at most 10 sequences)
+		if lim := blockMax - blockMax/255 - 96; budget > lim {
+			budget = lim
+		}
 		produced := 0
 		noFinal := false
 		ns := rapid.IntRange(0, 8).Draw(t, "nseqs")
